@@ -99,6 +99,21 @@ func (n *programTree) str() *strProgramTree {
 	return str
 }
 
+// sortedChildCommands - Returns the child commands ordered by their map key,
+// for callers whose result would otherwise depend on map iteration order.
+func (n *programTree) sortedChildCommands() []*programTree {
+	names := make([]string, 0, len(n.ChildCommands))
+	for name := range n.ChildCommands {
+		names = append(names, name)
+	}
+	sort.Strings(names)
+	commands := make([]*programTree, 0, len(names))
+	for _, name := range names {
+		commands = append(commands, n.ChildCommands[name])
+	}
+	return commands
+}
+
 // AddChildOption - Adds child options to programTree and runs validations.
 func (n *programTree) AddChildOption(name string, opt *option.Option) {
 	// Design choice:
